@@ -106,6 +106,38 @@ Definition chk_ascii_complete_on (e : list (Z * Z)) : bool :=
            else true) e.
 Definition chk_ascii_complete (R : rmap) : bool := chk_ascii_complete_on (els R).
 
+(* F8: the candidate test Index and bruteForceIndexUnicode apply to the first two code points:
+   ToUpperLower(u) (with the U+0130 / U+0131 special case) plus FoldMapExcludingUpperLower(u) *)
+Definition ul_hack_of (T : tables) (u : Z) : Z * Z :=
+  if (u =? 304) || (u =? 305) then (u, u) else (fst (fst (to_upper_lower T u)), snd (fst (to_upper_lower T u))).
+Definition cand2 (T : tables) (u r : Z) : bool :=
+  let U := fst (ul_hack_of T u) in let l := snd (ul_hack_of T u) in
+  let f := fold_map_excl T u in
+  (r =? U) || (r =? l) || (negb (fst f =? 0) && ((r =? fst f) || (r =? snd f))).
+
+Definition fx_check (T : tables) (P : Z -> Z -> Z -> bool) : bool :=
+  forallb (fun pe => match snd pe with [k; a; b] => P k a b | _ => false end) (PositiveMap.elements (fx_map T)).
+
+(* stored FoldMapExcludingUpperLower rows: both extra members fold like the key *)
+Definition chk_fx_sound (T : tables) : bool :=
+  fx_check T (fun k a b => negb (k =? 0) && ((a =? 0) || ((case_fold T a =? case_fold T k) && (case_fold T b =? case_fold T k)))).
+(* ToUpperLower for this use: pairs fold alike except where an ASCII letter or U+0130/U+0131 is involved
+   (handled by the ASCII branch / the special case), special entries fold like their key *)
+Definition chk_ul_sound2 (T : tables) : bool :=
+  ul_check T (fun a b => ((case_fold T a =? case_fold T b) ||
+                          (((a <? 129) || (a =? 304) || (a =? 305)) && ((b <? 129) || (b =? 304) || (b =? 305))))
+                         && (0 <? a) && (a <? 1114112) && (0 <? b) && (b <? 1114112))
+  && forallb (fun e => let k := fst e in let '(up, lo) := snd e in
+                (case_fold T up =? case_fold T k) && (case_fold T lo =? case_fold T k) && (128 <? k)) (ul_special T)
+  && forallb (fun u => (case_fold T (fst (ul_hack_of T u)) =? case_fold T u) && (case_fold T (snd (ul_hack_of T u)) =? case_fold T u)) (zrange 129).
+Definition chk_cand2_complete_on (T : tables) (R : rmap) (e : list (Z * Z)) : bool :=
+  forallb (fun a =>
+             let f := fold_map_excl T (fst a) in
+             let c := [fst (ul_hack_of T (fst a)); snd (ul_hack_of T (fst a))] ++ (if fst f =? 0 then [] else [fst f; snd f]) in
+             forallb (fun b => if snd a =? snd b then existsb (Z.eqb (fst b)) c else true) e) e
+  && forallb (fun e => is_member R (fst e)) (ul_special T).
+Definition chk_cand2_complete (T : tables) (R : rmap) : bool := chk_cand2_complete_on T R (els R).
+
 (* the checks are passed around wrapped, so that arithmetic tactics do not try to look inside them *)
 Definition holds (b : bool) : Prop := b = true.
 
@@ -364,6 +396,116 @@ Proof.
       destruct ((65 <=? r) && (r <=? 90)) eqn:U; cbn [app]; [right; left; lia|left; reflexivity].
   - intros H. pose proof HAS as S. unfold holds, chk_ascii_sound in S. rewrite forallb_forall in S.
     specialize (S r (zrange_in 128 r ltac:(lia))). rewrite forallb_forall in S. specialize (S x H). lia.
+Qed.
+
+(* ---- F8 ---- *)
+Hypothesis HFX : holds (chk_fx_sound T).
+Hypothesis HUL2 : holds (chk_ul_sound2 T).
+Hypothesis HC2 : holds (chk_cand2_complete T R).
+
+Lemma fx_check_spec P : holds (fx_check T P) ->
+  forall p k a b, PositiveMap.find p (fx_map T) = Some [k; a; b] -> P k a b = true.
+Proof.
+  intros H p k a b F. unfold holds, fx_check in H. rewrite forallb_forall in H.
+  apply PositiveMap.elements_correct in F. exact (H _ F).
+Qed.
+
+(* what FoldMapExcludingUpperLower returns: nothing, or two members of u's orbit *)
+Lemma fold_map_excl_cases u :
+  0 <= u <= MaxRune ->
+  fst (fold_map_excl T u) = 0 \/
+  (fold (fst (fold_map_excl T u)) = fold u /\ fold (snd (fold_map_excl T u)) = fold u).
+Proof.
+  intros Hu. unfold fold_map_excl, slot. rewrite (u32_rune u) by lia.
+  destruct (PositiveMap.find _ (fx_map T)) as [v|] eqn:F.
+  - destruct v as [|k [|a [|b [|x v]]]]; try (left; reflexivity).
+    destruct (k =? u) eqn:E; [|left; reflexivity].
+    pose proof (fx_check_spec _ HFX _ k a b F) as C. cbv beta in C. cbn [fst snd].
+    destruct (a =? 0) eqn:A; [left; lia|right]. assert (k = u) by lia. subst k. lia.
+  - cbn [repeat]. destruct (0 =? u); left; reflexivity.
+Qed.
+
+(* what the ToUpperLower step returns: two code points that fold like u, one of them u itself
+   unless u is a member of a listed orbit *)
+Lemma ul_hack_cases u :
+  0 <= u <= MaxRune ->
+  fold (fst (ul_hack_of T u)) = fold u /\ fold (snd (ul_hack_of T u)) = fold u /\
+  (is_member R u = false -> fst (ul_hack_of T u) = u \/ snd (ul_hack_of T u) = u).
+Proof.
+  intros Hu. unfold ul_hack_of.
+  pose proof HUL2 as C. unfold holds, chk_ul_sound2 in C.
+  apply andb_true_iff in C as [C C3]. apply andb_true_iff in C as [C1 C2].
+  pose proof (ul_check_spec _ C1) as C1'. clear C1. rewrite forallb_forall in C2, C3.
+  destruct ((u =? 304) || (u =? 305)) eqn:H; cbv iota; [cbn [fst snd]; repeat split; auto|].
+  destruct (u <=? 128) eqn:A.
+  { specialize (C3 u (zrange_in 129 u ltac:(lia))).
+    unfold ul_hack_of in C3. rewrite H in C3. cbv iota in C3.
+    split; [lia|]. split; [lia|].
+    intros _. unfold to_upper_lower. rewrite A.
+    destruct ((65 <=? u) && (u <=? 90)); [left; reflexivity|].
+    destruct ((97 <=? u) && (u <=? 122)); cbn [fst snd]; auto. }
+  unfold to_upper_lower. rewrite A. rewrite (u32_rune u) by lia. unfold slot.
+  assert (Hsp : forall up lo, assoc u (ul_special T) = Some (up, lo) ->
+                fold up = fold u /\ fold lo = fold u /\ is_member R u = true).
+  { intros up lo As. specialize (C2 _ (assoc_in _ _ _ As)). cbn [fst snd] in C2.
+    split; [lia|]. split; [lia|].
+    pose proof HC2 as D. unfold holds, chk_cand2_complete, chk_cand2_complete_on in D.
+    apply andb_true_iff in D as [_ D]. rewrite forallb_forall in D. specialize (D _ (assoc_in _ _ _ As)). exact D. }
+  assert (Hmiss : let x := match assoc u (ul_special T) with
+                           | Some (up, lo) => (up, lo, true)
+                           | None => (u, u, false) end in
+                  fold (fst (fst x)) = fold u /\ fold (snd (fst x)) = fold u /\
+                  (is_member R u = false -> fst (fst x) = u \/ snd (fst x) = u)).
+  { cbv zeta. destruct (assoc u (ul_special T)) as [[up lo]|] eqn:As; cbn [fst snd]; [|repeat split; auto].
+    destruct (Hsp up lo eq_refl) as (F1 & F2 & M). repeat split; auto. intros Hm. congruence. }
+  cbv zeta in Hmiss.
+  destruct (PositiveMap.find _ (ul_map T)) as [v|] eqn:F.
+  - destruct v as [|p0 [|p1 [|x3 v]]]; try (cbn [fst snd]; repeat split; auto; fail).
+    destruct ((p0 =? u) || (p1 =? u)) eqn:Hit; [|exact Hmiss].
+    pose proof (C1' _ p0 p1 F) as D. cbv beta in D. cbn [fst snd].
+    rewrite !to_rune_small by lia.
+    assert (Hf : fold p0 = fold p1).
+    { destruct (fold p0 =? fold p1) eqn:Ef; [lia|]. exfalso. destruct (p0 =? u) eqn:E0; lia. }
+    destruct (p0 =? u) eqn:E0; [assert (p0 = u) by lia|assert (p1 = u) by lia]; subst; repeat split; auto; lia.
+  - cbn [repeat]. replace ((0 =? u) || (0 =? u)) with false by lia. exact Hmiss.
+Qed.
+
+Theorem cand2_exact u r :
+  0 <= u <= MaxRune -> int32 r -> (cand2 T u r = true <-> fold r = fold u).
+Proof.
+  intros Hu Hr. pose proof (ul_hack_cases u Hu) as HU. pose proof (fold_map_excl_cases u Hu) as HF.
+  unfold cand2. cbv zeta. set (U := fst (ul_hack_of T u)) in *. set (l := snd (ul_hack_of T u)) in *. destruct HU as (FU & Fl & Hself).
+  split.
+  - intros C. destruct HF as [Z0|[F0 F1]].
+    + rewrite Z0 in C. cbn [Z.eqb negb andb] in C. rewrite orb_false_r in C.
+      destruct (r =? U) eqn:E1; [replace r with U by lia; exact FU|]. replace r with l by lia. exact Fl.
+    + destruct (r =? U) eqn:E1; [replace r with U by lia; exact FU|].
+      destruct (r =? l) eqn:E2; [replace r with l by lia; exact Fl|]. cbn [orb] in C.
+      apply andb_true_iff in C as [_ C].
+      destruct (r =? fst (fold_map_excl T u)) eqn:E3; [replace r with (fst (fold_map_excl T u)) by lia; exact F0|].
+      replace r with (snd (fold_map_excl T u)) by lia. exact F1.
+  - intros E. assert (Hui : int32 u) by (apply int32_of_rune; exact Hu).
+    destruct (is_member R u) eqn:Mu.
+    + apply (fold_orbit_exact T R HR HP HM) in E; [|assumption|assumption].
+      assert (Mr : is_member R r = true).
+      { destruct (is_member R r) eqn:Mr; [reflexivity|]. rewrite (rep_nonmember r Mr) in E.
+        apply member_props in Mu as (_ & _ & Mu). rewrite <- E in Mu. congruence. }
+      pose proof HC2 as C. unfold holds, chk_cand2_complete, chk_cand2_complete_on in C.
+      apply andb_true_iff in C as [C _]. rewrite forallb_forall in C.
+      specialize (C _ (member_in_elements u Mu)). cbn [fst snd] in C. fold U l in C.
+      rewrite forallb_forall in C. specialize (C _ (member_in_elements r Mr)). cbn [fst snd] in C.
+      rewrite E, Z.eqb_refl in C. apply existsb_exists in C as (y & Hy & Ey). assert (y = r) by lia. subst y.
+      cbn [app] in Hy. destruct Hy as [E1|[E2|Hy]].
+      { replace (r =? U) with true by lia. reflexivity. }
+      { replace (r =? l) with true by lia. rewrite orb_true_r. reflexivity. }
+      destruct (fst (fold_map_excl T u) =? 0) eqn:Z0; [destruct Hy|]. cbn [negb andb].
+      destruct Hy as [E3|[E4|[]]].
+      { replace (r =? fst (fold_map_excl T u)) with true by lia. rewrite ?orb_true_r. reflexivity. }
+      { replace (r =? snd (fold_map_excl T u)) with true by lia. rewrite ?orb_true_r. reflexivity. }
+    + apply (alone_in_orbit u r Hui Hr Mu) in E. subst r.
+      destruct (Hself eq_refl) as [E1 | E2].
+      { replace (u =? U) with true by lia. reflexivity. }
+      { replace (u =? l) with true by lia. rewrite orb_true_r. reflexivity. }
 Qed.
 
 End G2.
